@@ -37,6 +37,12 @@ def cases(rng, tier):
         m = rng.choice(MN) if rng.random() < 0.6 else " ".join(rng.choice(TEXTS + ["word"]) for _ in range(rng.randint(1, 12)))
         p = rng.choice(TEXTS) if rng.random() < 0.7 else "".join(rng.choice(TEXTS) for _ in range(rng.randint(1, 4)))
         pairs.append((m, p))
+    # pairs whose CONCATENATION coincides (only the split point moves), and swapped pairs, in one process
+    for m, p in list(pairs[:6]) + [("パス", ""), (MN[0], "TREZOR")]:
+        cat = m + p
+        for cut in sorted({0, len(m), len(cat), max(0, len(m) - 3), min(len(cat), len(m) + 2)}):
+            pairs.append((cat[:cut], cat[cut:]))
+        pairs.append((p, m))
     for m, p in pairs:
         yield "seed %s %s %s %s" % (sx(m), sx(nf(m)), sx(p), sx(nf(p))), "seed"
         t = rng.choice("01")
